@@ -1134,3 +1134,40 @@ Definition run (cf : config) (fuel : nat) (h : list (input * list tev)) (final :
   | Err e => Err e
   | UB k => UB k
   end.
+
+(* ---------------------------------------------------------------------------------- *)
+(* Executable check of the host_query invariant between two operations of a history     *)
+(* (used by the correspondence driver on every state it reaches: the getaddrinfo part   *)
+(* of the model is not covered by the proofs, see Properties_C01.v)                     *)
+(* ---------------------------------------------------------------------------------- *)
+Fixpoint khost (k : cbk) : option obj :=
+  match k with
+  | KHost o => Some o
+  | KWrap _ _ k' => khost k'
+  | _ => None
+  end.
+
+Fixpoint cbk_objs (k : cbk) : list obj :=
+  match k with
+  | KUser _ | KProbe | KHost _ => []
+  | KWrap _ o k' => o :: cbk_objs k'
+  | KSearch o k' _ _ _ => o :: cbk_objs k'
+  | KAddr o k' _ => o :: cbk_objs k'
+  end.
+
+Definition host_inv_check (s : state) : bool :=
+  let linked := concat (st_lists s) in
+  let href qo := match lookup qo (st_cells s) with Some (CQuery q) => khost (q_cb q) | _ => None end in
+  let nrefs o := length (filter (fun qo => match href qo with Some o' => Nat.eqb o o' | None => false end) linked) in
+  let opaque x := match lookup x (st_cells s) with Some COpaque => true | _ => false end in
+  (* every query that points at a host_query points at a live one *)
+  forallb (fun qo => match href qo with
+                     | Some o => match lookup o (st_cells s) with Some (CHost _) => true | _ => false end
+                     | None => true end) linked
+  (* outside of library calls: remaining = number of queries outstanding for it, at least one;
+     the application callback's wrapper is alive *)
+  && forallb (fun p => match snd p with
+                       | CHost h => Nat.eqb (h_remaining h) (nrefs (fst p)) && Nat.ltb 0 (h_remaining h)
+                                    && forallb opaque (cbk_objs (h_cb h))
+                                    && negb (memb (fst p) (st_freed s))
+                       | _ => true end) (st_cells s).
